@@ -128,11 +128,17 @@ def run(ctx: core.Ctx) -> int:
                msg="search does not refuse a target that is not a StateId before searching")
     loop = next((s for s in b if isinstance(s, ast.For)), None)
     txt = [ast.unparse(s).replace(" ", "") for s in (loop.body if loop else [])]
-    okq = any(t.startswith("iflen(frontier)<=0:") and "break" in t for t in txt)
-    pop = "current_state,transitions=frontier[0]" in txt and "frontier=frontier[1:]" in txt
+    okq = any((t.startswith("iflen(frontier)<=0:") or t.startswith("ifnotfrontier:") or t.startswith("iflen(frontier)==0:")) and "break" in t for t in txt)
+    whole = "".join(txt)
+    front = ("current_state,transitions=frontier[0]" in txt and "frontier=frontier[1:]" in txt) or "current_state,transitions=frontier.pop(0)" in txt \
+        or "current_state,transitions=frontier.popleft()" in txt or ("current_state,transitions=frontier[0]" in txt and "delfrontier[0]" in txt)
+    lifo = "frontier.pop()" in whole or "frontier[-1]" in whole or "frontier.insert(0" in whole or "frontier.appendleft(" in whole
     goal = any(t.startswith("ifcurrent_state.state_id()==end_state:") and "returntransitions" in t for t in txt)
-    ctx.oblige("SEARCH", where, "FIFO pop from the front; goal test on the popped entry", bool(loop) and okq and pop and goal, file=F, func="StateMachineState.search",
-               construct="frontier discipline", msg="the frontier is not processed first-in first-out with the goal test on the popped entry (paths may not be shortest / may be wrong)")
+    if loop is not None and not front and not lifo:
+        ctx.error(f"{where}: how the frontier is popped is not an enumerated idiom")
+    ctx.oblige("SEARCH", where, "FIFO pop from the front; goal test on the popped entry", bool(loop) and okq and front and not lifo and goal, file=F,
+               func="StateMachineState.search", construct="frontier discipline",
+               msg="the frontier is not processed first-in first-out with the goal test on the popped entry (paths may not be shortest / may be wrong)")
     inner = next((s for s in (loop.body if loop else []) if isinstance(s, ast.For)), None)
     ext = False
     if inner is not None:
